@@ -856,12 +856,16 @@ class LanguageGraph():
                         msg % (association["rightAsset"], association["name"])
                     )
 
-                # Technically we should be more exhaustive and check the
-                # flipped version too and all of the fieldnames as well.
+                # Two associations may share their name and their assets,
+                # the fieldnames tell them apart.
                 assoc_node = next((assoc for assoc in self.associations \
                     if assoc.name == association['name'] and
                         assoc.left_field.asset == left_asset and
-                        assoc.right_field.asset == right_asset),
+                        assoc.right_field.asset == right_asset and
+                        assoc.left_field.fieldname == \
+                            association['leftField'] and
+                        assoc.right_field.fieldname == \
+                            association['rightField']),
                         None)
                 if assoc_node:
                     # The association was already created, skip it
